@@ -506,7 +506,13 @@ def evolve(r, prog, pair_bias=0.0):
                     v = lit(c["type"], r)
                     if c["type"] == BOOL:
                         v = "n" if cur == "y" else "y"
-                    if c["defaults"] and c["defaults"][-1][1] is None:
+                    if r.random() < 0.6:
+                        # the new default comes first, so it is the effective one whatever conditional defaults follow
+                        if c["type"] == BOOL and c["defaults"]:
+                            first = c["defaults"][0]
+                            v = "n" if (first[0] == "y" and first[1] is None) else v
+                        c["defaults"].insert(0, [v, None])
+                    elif c["defaults"] and c["defaults"][-1][1] is None:
                         c["defaults"][-1][0] = v
                     else:
                         c["defaults"].append([v, None])
@@ -699,6 +705,15 @@ def dep_edges(prog):
         if a != b and a in tab and b in tab:
             edges.extend([(a, b, en)] * mult)
 
+    # who selects / implies / sets each option: its own dependencies only matter for such a value while the source is on
+    rev_sources = {}
+    for it in walk(prog["items"]):
+        if it["k"] == "config":
+            for t, _c in it["selects"] + it["implies"]:
+                rev_sources.setdefault(t, []).append(it["name"])
+            for _kind, t, _v, _c in it["sets"]:
+                rev_sources.setdefault(t, []).append(it["name"])
+
     def rec(items, inherited):
         for it in items:
             k = it["k"]
@@ -718,6 +733,8 @@ def dep_edges(prog):
                         add(a, b, None, 3)
                 for a in srcs:
                     add(a, b)
+                    for src in rev_sources.get(b, ()):
+                        add(a, b, src, 2)
                 for t, c in it["selects"] + it["implies"]:
                     add(b, t)
                     for a in names_in(c) + srcs:
